@@ -41,3 +41,25 @@ Theorem C01_eliminated :
     Rp (sol "U†" * sol "H" * sol "U") == 0.
 Proof. intros. eapply eliminated_general; eassumption. Qed.
 Print Assumptions C01_eliminated.
+
+(** Two-block optimisation (two_block_optimized = True): same conclusions under [wiring_tb]. *)
+
+Theorem C01_kept_two_block :
+  forall (T : Type) (r0 r1 : T) (add mul sub : T -> T -> T) (opp : T -> T) (req : T -> T -> Prop)
+         (Ro : @Ring_ops T r0 r1 add mul sub opp req) (Rg : @Ring T r0 r1 add mul sub opp req Ro)
+         (BA : BlockAlg T) (rflag : string -> T -> T) (fenv : string -> list T -> T) (sol : string -> T),
+    solution (gflag_of true) rflag fenv sol main_alg ->
+    wiring_tb rflag fenv (sol "H") ->
+    Sel (sol "U†" * sol "H" * sol "U") == sol "H_tilde".
+Proof. intros. eapply kept_tb; eassumption. Qed.
+Print Assumptions C01_kept_two_block.
+
+Theorem C01_eliminated_two_block :
+  forall (T : Type) (r0 r1 : T) (add mul sub : T -> T -> T) (opp : T -> T) (req : T -> T -> Prop)
+         (Ro : @Ring_ops T r0 r1 add mul sub opp req) (Rg : @Ring T r0 r1 add mul sub opp req Ro)
+         (BA : BlockAlg T) (rflag : string -> T -> T) (fenv : string -> list T -> T) (sol : string -> T),
+    solution (gflag_of true) rflag fenv sol main_alg ->
+    wiring_tb rflag fenv (sol "H") ->
+    Rp (sol "U†" * sol "H" * sol "U") == 0.
+Proof. intros. eapply eliminated_tb; eassumption. Qed.
+Print Assumptions C01_eliminated_two_block.
